@@ -122,6 +122,14 @@ class BigQueryModel(data_algebra.db_model.DBModel):
         )
         self.table_prefix = table_prefix
 
+    def quote_string(self, string: str) -> str:
+        """
+        Quote a string value (this dialect reads backslash as an escape character).
+        """
+        return data_algebra.sql_model.quote_string_with_backslash_escapes(
+            self.string_quote, string
+        )
+
     def get_table_name(self, table_description):
         if not isinstance(table_description, str):
             try:
